@@ -200,6 +200,24 @@ def run(chk):
         chk.case(key=("font", k), nontrivial=True)
         chk.traces_validated += 1
         check_font(chk, font, cfg, srcs, glyphs, tol, max(q, 1), f"scenario {k}", replay)
+    # reuse transform kinds x fill kinds (clip boxes are computed through the paint graph of reused layers)
+    for k, (label, glyphs) in enumerate(S.reuse_fill_grid()):
+        qsel = qs[k % 4]
+        cfgkw = dict(color_format="glyf_colr_1", keep_glyph_names=True, clip_to_viewbox=False, reuse_tolerance=0.1, **S.LATTICE_CONFIG)
+        if qsel is not None:
+            cfgkw["clipbox_quantization"] = qsel
+        cfg = build.base_config(**cfgkw)
+        q = qsel if qsel is not None else round(cfg.upem * 0.02)
+        srcs = CC.sources_from(glyphs)
+        replay = {"kind": "reuse-x-fill", "label": label, "config": {a: str(b) for a, b in cfgkw.items()}, "svgs": [x.svg_text for x in srcs]}
+        try:
+            _, font = build.build(cfg, srcs, already_pico=True)
+        except Exception as e:
+            chk.notes.setdefault("build_failures", []).append(f"{type(e).__name__}: {str(e)[:80]}")
+            continue
+        chk.case(key=("reuse-grid", label), nontrivial=True)
+        chk.traces_validated += 1
+        check_font(chk, font, cfg, srcs, glyphs, 0.1, max(q, 1), f"reuse grid [{label}]", replay)
     chk.assumptions += ["bounds recomputed with the oracle's own flattening of the compiled outlines (12-segment "
                         "curve flattening: under-estimates a curved edge by < 0.1 unit)"]
 
